@@ -176,6 +176,11 @@ def judge(lay, data, stats):
 # ------------------------------------------------------------------------------------------ enumeration
 def sweep_layout(job):
     li, mode, tier = job
+    if mode == "bytes-debug":
+        # the same single-byte sweep with the library's loggers at DEBUG: what a payload decodes to is not a
+        # function of the log level
+        with worlds.debug_logging():
+            return sweep_layout((li, "bytes", tier))
     lay = LAYOUTS[li]
     stats = {}
     bad = []
@@ -363,6 +368,9 @@ def replay_input(rp):
     lay = next((x for x in LAYOUTS if x.name == rp["layout"]), None)
     if lay is None:
         return rp.get("message")
+    if rp.get("debug"):
+        with worlds.debug_logging():
+            return judge(lay, bytes.fromhex(rp["data"]), {})
     return judge(lay, bytes.fromhex(rp["data"]), {})
 
 
@@ -377,6 +385,7 @@ def run(tier, seed, part=None):
     jobs = []
     for li, lay in enumerate(LAYOUTS):
         jobs.append((li, "bytes", tier))
+        jobs.append((li, "bytes-debug", tier))
         for pos in range(lay.size - 1):
             jobs.append((li, ("pair", pos), tier))
     res = explorer.pool().map(sweep_layout, jobs, chunksize=1)
@@ -386,7 +395,9 @@ def run(tier, seed, part=None):
             total[k] = total.get(k, 0) + v
         for sig, msg in bad:
             data = msg.split("payload ")[1].split(":")[0]
-            chk.violation(sig, msg, {"kind": "input", "module": "pvmc.props.c05", "layout": LAYOUTS[job[0]].name, "data": data})
+            dbg = job[1] == "bytes-debug"
+            chk.violation(sig + (":debug-logging" if dbg else ""), msg + (" [library loggers at DEBUG]" if dbg else ""),
+                          {"kind": "input", "module": "pvmc.props.c05", "layout": LAYOUTS[job[0]].name, "data": data, "debug": dbg})
     hres = explorer.pool().map(history_independence, list(range(len(LAYOUTS))), chunksize=1)
     for li, (n, k, viol) in enumerate(hres):
         total["evaluations"] = total.get("evaluations", 0) + n
